@@ -25,6 +25,12 @@ CHECKS["C07"] = ("model_checking",
     "Depth-bounded (quick 2-3, thorough 3-5); crash/fault interleavings of a write are C08's subject, not this check's.",
     "DESIGN.md §3 C07")
 
+CHECKS["C19"] = ("model_checking",
+    "explicit-state BFS over operation histories on a pre-populated store opened read-only (6 ways) with file-system audit + tree digest after every transition; exhaustive sequences for null storage / null runner",
+    "Every history to the stated depth of storage-level and function-level operations against a populated store reopened read-only by argument, storage config, cluster config, with/without cache and on the memory backend: after each transition no mutating audit event under the roots, the tree digest equals the initial one, reads answer as the model, memoize is skipped, forget/metadata writes are rejected. Null storage and null runner: every operation sequence to depth 3 with body-execution counts.",
+    "Audit coverage is what CPython's audit events report (open, mkdir, remove, rename, rmdir, rmtree, truncate, link, chmod, utime); the digest catches anything else that changes file contents or names.",
+    "DESIGN.md §3 C19")
+
 PENDING = {}
 
 
